@@ -340,10 +340,38 @@ func TestVerifC10(t *testing.T) {
 		}
 		var err error
 		p := vk.Catch(func() { err = run.start() })
+		// what the RUNNING instance says about itself after a stop or a failed write (the keeper decides ready vs
+		// registered from this, without reopening): never plotted / 100 % unless the table is complete
+		var runPre, runPlotted, runReady bool
+		var runPct float64
+		haveRun := p == "" && run.mdb != nil && run.crashedAt == 0 && !run.livelock
+		if haveRun {
+			vk.Catch(func() { runPre, runPlotted, runPct = run.mdb.Progress(); runReady = run.mdb.Ready() })
+		}
 		run.closeFiles()
 		defer os.RemoveAll(run.dir)
 		r.Eval(1)
 		cs.Point, cs.Kind = j.point, kindName
+		if haveRun && j.kind != pCrash {
+			pn := "end"
+			if j.point <= len(run.points) {
+				pn = run.points[j.point-1]
+			}
+			rsite := kindName + "@" + pn
+			_, bad, _ := ref.checkB(pData(pReadFile(run.pathB())))
+			switch {
+			case runPlotted != runReady:
+				r.Violation("C10/ready-disagrees-with-progress/running/"+rsite, fmt.Sprintf("running instance after the interruption: Progress() says plotted=%v, Ready()=%v (%+v)", runPlotted, runReady, cs), cs)
+				return
+			case (runPlotted || runReady) && bad > 0:
+				r.Violation("C10/falsely-complete/running/"+rsite, fmt.Sprintf("running instance reports plotted after the interruption but %d entries of its table are wrong or missing (%+v)", bad, cs), cs)
+				return
+			case runPct >= 100 && bad > 0:
+				r.Violation("C10/progress-100-with-incomplete-table/running/"+rsite, fmt.Sprintf("running instance reports progress %.4f after the interruption but %d entries of its table are wrong or missing; the keeper takes 100 for a finished plot (%+v)", runPct, bad, cs), cs)
+				return
+			}
+			_ = runPre
+		}
 		if (j.kind == pFull0 || j.kind == pFullPart) && run.faultAt > 0 {
 			stats.mu.Lock()
 			stats.writeFaults++
@@ -397,9 +425,12 @@ func TestVerifC10(t *testing.T) {
 				continue
 			}
 			mdb := mdbi.(*MassDBV1)
-			prePlotted, plotted, _ := mdb.Progress()
+			prePlotted, plotted, pct := mdb.Progress()
 			if plotted != mdb.Ready() {
 				r.Violation("C10/ready-disagrees-with-progress/"+site, "Ready() and Progress() disagree", cs)
+			}
+			if pct >= 100 && !plotted {
+				r.Violation("C10/progress-100-with-incomplete-table/"+site, fmt.Sprintf("reopened space reports progress %.4f although it is not plotted; the keeper takes 100 for a finished plot (state %s, %+v)", pct, st.Desc, cs), cs)
 			}
 			mdb.Close()
 			os.RemoveAll(dir)
@@ -484,6 +515,27 @@ func TestVerifC10(t *testing.T) {
 						jobs = append(jobs, job{pCase{Key: 0, BL: bl, PlanA: pl[0], PlanB: pl[1]}, k, kind})
 					}
 				}
+			}
+		}
+	}
+	// late interruptions: at bit length 10 a plot whose last window holds 4 of 2048 records is 99.8 % done when it is
+	// interrupted there (bit length 8 cannot get above 99.2 %): graceful stops and full disks at every point
+	{
+		fa, fb := pFull(10)
+		pl := [2][]int{{fa}, {fb - 4, 4}}
+		if _, ok := bases["10"]; !ok {
+			bases["10"] = baseOf(0, 10)
+		}
+		probe := &pRun{dir: pNewDir(), key: 0, bl: 10, planA: pl[0], planB: pl[1]}
+		if err := probe.start(); err != nil {
+			vk.Fatalf("probe plot: %v", err)
+		}
+		probe.closeFiles()
+		os.RemoveAll(probe.dir)
+		for k := 1; k <= len(probe.points); k++ {
+			jobs = append(jobs, job{pCase{Key: 0, BL: 10, PlanA: pl[0], PlanB: pl[1]}, k, pStop})
+			if strings.HasSuffix(probe.points[k-1], ".computed") {
+				jobs = append(jobs, job{pCase{Key: 0, BL: 10, PlanA: pl[0], PlanB: pl[1]}, k, pFull0})
 			}
 		}
 	}
